@@ -892,12 +892,16 @@ pub fn call_attrs<O: Attrs + ?Sized>(rv: &mut Recv<O>, mi: usize, a: &mut A) -> 
         _ => Ret::NoSuchMethod,
     }
 }
-pub const LEND: [Meth; 1] = [m("lend")];
-pub fn call_lend<O: Lend<'static> + ?Sized + 'static>(rv: &mut Recv<O>, _mi: usize, a: &mut A) -> Ret {
+pub const LEND: [Meth; 2] = [m("lend"), m("lend_mut")];
+pub fn call_lend<O: Lend<'static> + ?Sized + 'static>(rv: &mut Recv<O>, mi: usize, a: &mut A) -> Ret {
     let o = need_mut!(rv);
     // the trait borrows its receiver for the trait's own lifetime; the view is used and dropped
     // inside this call, so the borrow is over when it returns
     let o: &'static mut O = unsafe { &mut *(o as *mut O) };
+    if mi == 1 {
+        let c = o.lend_mut();
+        return Ret::U(c.b_add(a.u(0)));
+    }
     let view = o.lend(a.u(0));
     let r = call_readonly(&mut Recv::Ref(&view), a.raw(1).rem_euclid(READONLY.len() as i64) as usize, &mut sub(a));
     drop(view);
